@@ -1,690 +1,19 @@
 // C16 correspondence harness: runs the real fcppt.algorithm functions and container/array/tuple helpers on the
 // operation lines described in lean/FcpptModel/Drv/C16.lean and prints the same canonical result lines.
-#include "common/vh.hpp"
-
-#include <fcppt/function_impl.hpp>
-#include <fcppt/int_range_impl.hpp>
-#include <fcppt/loop.hpp>
-#include <fcppt/make_int_range.hpp>
-#include <fcppt/reference_impl.hpp>
-#include <fcppt/tag.hpp>
-#include <fcppt/algorithm/all_of.hpp>
-#include <fcppt/algorithm/binary_search.hpp>
-#include <fcppt/algorithm/contains.hpp>
-#include <fcppt/algorithm/contains_if.hpp>
-#include <fcppt/algorithm/equal_range.hpp>
-#include <fcppt/algorithm/find_by_opt.hpp>
-#include <fcppt/algorithm/find_if_opt.hpp>
-#include <fcppt/algorithm/find_opt.hpp>
-#include <fcppt/algorithm/fold.hpp>
-#include <fcppt/algorithm/fold_break.hpp>
-#include <fcppt/algorithm/generate_n.hpp>
-#include <fcppt/algorithm/index_of.hpp>
-#include <fcppt/algorithm/join_strings.hpp>
-#include <fcppt/algorithm/loop.hpp>
-#include <fcppt/algorithm/loop_break.hpp>
-#include <fcppt/algorithm/loop_break_mpl.hpp>
-#include <fcppt/algorithm/loop_break_tuple.hpp>
-#include <fcppt/algorithm/map.hpp>
-#include <fcppt/algorithm/map_array.hpp>
-#include <fcppt/algorithm/map_concat.hpp>
-#include <fcppt/algorithm/map_iteration.hpp>
-#include <fcppt/algorithm/map_iteration_second.hpp>
-#include <fcppt/algorithm/map_optional.hpp>
-#include <fcppt/algorithm/map_tuple.hpp>
-#include <fcppt/algorithm/remove.hpp>
-#include <fcppt/algorithm/remove_if.hpp>
-#include <fcppt/algorithm/repeat.hpp>
-#include <fcppt/algorithm/reverse.hpp>
-#include <fcppt/algorithm/sequence_iteration.hpp>
-#include <fcppt/algorithm/split_string.hpp>
-#include <fcppt/algorithm/unique.hpp>
-#include <fcppt/algorithm/unique_if.hpp>
-#include <fcppt/algorithm/update_action.hpp>
-#include <fcppt/array/append.hpp>
-#include <fcppt/array/from_range.hpp>
-#include <fcppt/array/init.hpp>
-#include <fcppt/array/join.hpp>
-#include <fcppt/array/map.hpp>
-#include <fcppt/array/object.hpp>
-#include <fcppt/array/push_back.hpp>
-#include <fcppt/container/at_optional.hpp>
-#include <fcppt/container/find_opt_mapped.hpp>
-#include <fcppt/container/get_or_insert.hpp>
-#include <fcppt/container/get_or_insert_with_result.hpp>
-#include <fcppt/container/index_map.hpp>
-#include <fcppt/container/join.hpp>
-#include <fcppt/container/key_set.hpp>
-#include <fcppt/container/map_values_copy.hpp>
-#include <fcppt/container/map_values_ref.hpp>
-#include <fcppt/container/set_difference.hpp>
-#include <fcppt/container/set_intersection.hpp>
-#include <fcppt/container/set_union.hpp>
-#include <fcppt/enum/range_impl.hpp>
-#include <fcppt/mpl/list/object.hpp>
-#include <fcppt/optional/object.hpp>
-#include <fcppt/range/begin.hpp>
-#include <fcppt/range/end.hpp>
-#include <fcppt/tuple/concat.hpp>
-#include <fcppt/tuple/get.hpp>
-#include <fcppt/tuple/map.hpp>
-#include <fcppt/tuple/object.hpp>
-#include <fcppt/tuple/push_back.hpp>
-
-#include <array>
-#include <cstddef>
-#include <deque>
-#include <forward_list>
-#include <iterator>
-#include <list>
-#include <map>
-#include <optional>
-#include <set>
-#include <string>
-#include <type_traits>
-#include <utility>
-#include <vector>
+#include "c16_common.hpp"
 
 namespace
 {
-using seq = std::vector<int>;
-using ulong = unsigned long;
-enum class en3 { v0, v1, v2, fcppt_maximum = v2 };
-
-std::string const bad{"bad-op"};
-#define SZ(n) (std::remove_cvref_t<decltype(n)>::value)
-
-// ---------------------------------------------------------------- parsing and printing
-
-std::optional<seq> parse_seq(std::string const &s)
-{
-  seq r;
-  if (s == "-")
-    return r;
-  for (char c : s)
-  {
-    if (c < '0' || c > '9')
-      return std::nullopt;
-    r.push_back(c - '0');
-  }
-  return r;
-}
-
-bool all_lt3(seq const &v)
-{
-  for (int x : v)
-    if (x >= 3)
-      return false;
-  return true;
-}
-
-inline int val(int x) { return x; }
-inline int val(long x) { return static_cast<int>(x); }
-inline int val(short x) { return static_cast<int>(x); }
-inline int val(en3 x) { return static_cast<int>(x); }
-inline int val(std::pair<int const, int> const &p) { return p.second; }
-template <typename T>
-inline int val(fcppt::tag<T>) { return T::value; }
-
-template <typename C>
-std::string ds(C const &c)
-{
-  std::string r;
-  for (auto const &e : c)
-    r += std::to_string(val(e));
-  return r.empty() ? "-" : r;
-}
-
-template <typename C>
-std::string nl(C const &c)
-{
-  std::string r;
-  bool first = true;
-  for (auto const &e : c)
-  {
-    if (!first)
-      r += ',';
-    first = false;
-    r += std::to_string(val(e));
-  }
-  return r.empty() ? "-" : r;
-}
-
-std::optional<ulong> to_nat(std::string const &s)
-{
-  if (s.empty() || s.size() > 9)
-    return std::nullopt;
-  for (char c : s)
-    if (c < '0' || c > '9')
-      return std::nullopt;
-  return std::stoul(s);
-}
-
-inline bool bit(ulong m, int x) { return ((m >> x) & 1UL) != 0; }
-inline ulong pw(ulong b, int e) { ulong r = 1; while (e-- > 0) r *= b; return r; }
-inline int tbl_f(ulong F, int x) { return static_cast<int>((F / pw(3, x)) % 3); }
-inline fcppt::optional::object<int> tbl_g(ulong G, int x)
-{
-  ulong const d = (G / pw(4, x)) % 4;
-  return d == 0 ? fcppt::optional::object<int>{} : fcppt::optional::object<int>{static_cast<int>(d) - 1};
-}
-inline seq tbl_h(ulong H, int x)
-{
-  switch ((H / pw(4, x)) % 4)
-  {
-  case 0: return {};
-  case 1: return {x};
-  case 2: return {x, (x + 1) % 3};
-  default: return {2, x, x};
-  }
-}
-inline bool rel(ulong R, int a, int b) { return bit(R, 3 * a + b); }
-inline char const *b01(bool b) { return b ? "1" : "0"; }
-
-// run `f(std::integral_constant<size_t, n>)` for a run-time n <= Max
-template <std::size_t Max, typename F>
-std::string with_size(std::size_t const n, F const &f)
-{
-  std::string r{bad};
-  [&]<std::size_t... I>(std::index_sequence<I...>)
-  {
-    ((n == I ? (r = f(std::integral_constant<std::size_t, I>{}), 0) : 0), ...);
-  }
-  (std::make_index_sequence<Max + 1>{});
-  return r;
-}
-
-template <std::size_t N>
-fcppt::array::object<int, N> mk_array(seq const &v, std::size_t const off)
-{
-  return fcppt::array::init<fcppt::array::object<int, N>>(
-      [&v, off]<std::size_t I>(std::integral_constant<std::size_t, I>) { return v[off + I]; });
-}
-
-template <std::size_t N> struct tuple_of;
-template <> struct tuple_of<0> { using type = fcppt::tuple::object<>; };
-template <> struct tuple_of<1> { using type = fcppt::tuple::object<int>; };
-template <> struct tuple_of<2> { using type = fcppt::tuple::object<int, long>; };
-template <> struct tuple_of<3> { using type = fcppt::tuple::object<int, long, short>; };
-
-template <std::size_t N>
-typename tuple_of<N>::type mk_tuple(seq const &v, std::size_t const off)
-{
-  if constexpr (N == 0) return fcppt::tuple::object<>{};
-  else if constexpr (N == 1) return fcppt::tuple::object<int>{v[off]};
-  else if constexpr (N == 2) return fcppt::tuple::object<int, long>{v[off], static_cast<long>(v[off + 1])};
-  else return fcppt::tuple::object<int, long, short>{v[off], static_cast<long>(v[off + 1]), static_cast<short>(v[off + 2])};
-}
-
-template <typename... Ts>
-std::string ds_tuple(fcppt::tuple::object<Ts...> const &t)
-{
-  std::string r;
-  [&]<std::size_t... I>(std::index_sequence<I...>)
-  {
-    ((r += std::to_string(val(fcppt::tuple::get<I>(t)))), ...);
-  }
-  (std::make_index_sequence<sizeof...(Ts)>{});
-  return r.empty() ? "-" : r;
-}
-
-template <int... D>
-using ml = fcppt::mpl::list::object<std::integral_constant<int, D>...>;
-
-template <typename F>
-std::string with_mpl(seq const &v, F const &f)
-{
-  if (v.size() == 0) return f(ml<>{});
-  if (v.size() == 1)
-    switch (v[0]) { case 0: return f(ml<0>{}); case 1: return f(ml<1>{}); case 2: return f(ml<2>{}); default: return bad; }
-  if (v.size() == 2)
-    switch (v[0] * 3 + v[1])
-    {
-    case 0: return f(ml<0, 0>{}); case 1: return f(ml<0, 1>{}); case 2: return f(ml<0, 2>{});
-    case 3: return f(ml<1, 0>{}); case 4: return f(ml<1, 1>{}); case 5: return f(ml<1, 2>{});
-    case 6: return f(ml<2, 0>{}); case 7: return f(ml<2, 1>{}); case 8: return f(ml<2, 2>{});
-    default: return bad;
-    }
-  return bad;
-}
-
-// ---------------------------------------------------------------- sources
-
-// read-only range kinds: v l d f s m i e.  `f` is called with a const container.
-template <typename F>
-std::string with_ro(char const k, seq const &v, F const &f)
-{
-  switch (k)
-  {
-  case 'v': { std::vector<int> const c(v.begin(), v.end()); return f(c); }
-  case 'l': { std::list<int> const c(v.begin(), v.end()); return f(c); }
-  case 'd': { std::deque<int> const c(v.begin(), v.end()); return f(c); }
-  case 'f': { std::forward_list<int> const c(v.begin(), v.end()); return f(c); }
-  case 's': { std::set<int> const c(v.begin(), v.end()); return f(c); }
-  case 'm':
-  {
-    std::map<int, int> c;
-    for (std::size_t i = 0; i < v.size(); ++i)
-      c.emplace(static_cast<int>(i), v[i]);
-    std::map<int, int> const &cc{c};
-    return f(cc);
-  }
-  case 'i': { if (v.size() != 2 || v[0] > 3 || v[1] > 3) return bad; fcppt::int_range<int> const c{fcppt::make_int_range(v[0], v[1])}; return f(c); }
-  case 'e':
-  {
-    if (v.size() != 2 || v[0] > v[1] || v[1] > 3) return bad;
-    fcppt::enum_::range<en3> const c{static_cast<unsigned>(v[0]), static_cast<unsigned>(v[1])};
-    return f(c);
-  }
-  default: return bad;
-  }
-}
-
-// mutable sequence kinds: v l d (+ s when allowed)
-template <typename F>
-std::string with_seq(char const k, seq const &v, F const &f)
-{
-  switch (k)
-  {
-  case 'v': { std::vector<int> c(v.begin(), v.end()); return f(c); }
-  case 'l': { std::list<int> c(v.begin(), v.end()); return f(c); }
-  case 'd': { std::deque<int> c(v.begin(), v.end()); return f(c); }
-  default: return bad;
-  }
-}
-template <typename F>
-std::string with_seq_set(char const k, seq const &v, F const &f)
-{
-  if (k == 's') { std::set<int> c(v.begin(), v.end()); return f(c); }
-  return with_seq(k, v, f);
-}
-
-template <typename T> struct elem_of { static T from(int x) { return static_cast<T>(x); } };
-
-template <typename C>
-using elem_t = std::remove_cvref_t<decltype(*std::declval<C const &>().begin())>;
-
-// run with a target container type chosen by t: 0 vector, 1 list, 2 deque, 3 set
-template <typename F>
-std::string with_target(ulong const t, F const &f)
-{
-  switch (t)
-  {
-  case 0: return f(std::vector<int>{});
-  case 1: return f(std::list<int>{});
-  case 2: return f(std::deque<int>{});
-  case 3: return f(std::set<int>{});
-  default: return bad;
-  }
-}
-
-template <typename C, typename It>
-std::string opt_idx(C &c, fcppt::optional::object<It> const &o)
-{
-  if (!o.has_value())
-    return "none";
-  auto const pos = std::distance(c.begin(), It{o.get_unsafe()});
-  if (pos < 0 || pos >= std::distance(c.begin(), c.end()))
-    return std::to_string(pos) + ":oob";
-  return std::to_string(pos) + ":" + std::to_string(val(*o.get_unsafe()));
-}
-
-constexpr bool is_ro(char k) { return k == 'v' || k == 'l' || k == 'd' || k == 'f' || k == 's' || k == 'm' || k == 'i' || k == 'e'; }
-constexpr bool is_sq(char k) { return k == 'v' || k == 'l' || k == 'd'; }
-
-// ---------------------------------------------------------------- one evaluation
-
 std::string eval_fn(std::string const &fn, char const k, std::vector<ulong> const &ps, seq const &v)
 {
-  namespace alg = fcppt::algorithm;
-  namespace con = fcppt::container;
-  bool const ro = is_ro(k);
-  bool const sq = is_sq(k);
-  std::size_t const np = ps.size();
   if (k == 'a' && (v.size() > 6 || !all_lt3(v))) return bad;
   if (k == 't' && (v.size() > 3 || !all_lt3(v))) return bad;
-  if (k == 'p' && (v.size() > 2 || !all_lt3(v))) return bad;
+  if (k == 'p' && (v.size() > 3 || !all_lt3(v))) return bad;
   if ((k == 'v' || k == 'l' || k == 'd' || k == 'f' || k == 'm' || k == 's') && !all_lt3(v)) return bad;
 
-  if (fn == "map" && np == 2)
-  {
-    ulong const t = ps[0], F = ps[1];
-    if (!(ro || k == 'a' || k == 'p') || t > 3 || F >= 27 || ((k == 'a' || k == 'p') && t != 0)) return bad;
-    if (k == 'a')
-      return with_size<6>(v.size(), [&](auto n) {
-        auto const src{mk_array<SZ(n)>(v, 0)};
-        seq log;
-        auto const r{alg::map<std::vector<int>>(src, [&](int const e) { log.push_back(e); return tbl_f(F, e); })};
-        return ds(r) + "|" + ds(log);
-      });
-    if (k == 'p')
-      return with_mpl(v, [&](auto list) {
-        seq log;
-        auto const r{alg::map<std::vector<int>>(list, [&](auto const tag) { log.push_back(val(tag)); return tbl_f(F, val(tag)); })};
-        return ds(r) + "|" + ds(log);
-      });
-    return with_ro(k, v, [&](auto const &c) {
-      return with_target(t, [&](auto target) {
-        using target_type = decltype(target);
-        seq log;
-        auto const r{alg::map<target_type>(c, [&](auto const &e) { log.push_back(val(e)); return tbl_f(F, val(e)); })};
-        return ds(r) + "|" + ds(log);
-      });
-    });
-  }
-  if (fn == "mapopt" && np == 2)
-  {
-    ulong const t = ps[0], G = ps[1];
-    if (!ro || t > 3 || G >= 64) return bad;
-    return with_ro(k, v, [&](auto const &c) {
-      return with_target(t, [&](auto target) {
-        using target_type = decltype(target);
-        seq log;
-        auto const r{alg::map_optional<target_type>(c, [&](auto const &e) { log.push_back(val(e)); return tbl_g(G, val(e)); })};
-        return ds(r) + "|" + ds(log);
-      });
-    });
-  }
-  if (fn == "mapcat" && np == 2)
-  {
-    ulong const t = ps[0], H = ps[1];
-    if (!ro || t > 3 || H >= 64) return bad;
-    return with_ro(k, v, [&](auto const &c) {
-      return with_target(t, [&](auto target) {
-        using target_type = decltype(target);
-        seq log;
-        auto const r{alg::map_concat<target_type>(c, [&](auto const &e) {
-          log.push_back(val(e));
-          seq const h{tbl_h(H, val(e))};
-          return target_type(h.begin(), h.end());
-        })};
-        return ds(r) + "|" + ds(log);
-      });
-    });
-  }
-  if (fn == "fold" && np == 0)
-  {
-    if (!(ro || k == 'a')) return bad;
-    auto const step = [](auto const &e, ulong const st) { return st * 4 + static_cast<ulong>(val(e)) + 1; };
-    if (k == 'a')
-      return with_size<6>(v.size(), [&](auto n) {
-        auto const src{mk_array<SZ(n)>(v, 0)};
-        return std::to_string(alg::fold(src, 0UL, step));
-      });
-    return with_ro(k, v, [&](auto const &c) { return std::to_string(alg::fold(c, 0UL, step)); });
-  }
-  if (fn == "foldbrk" && np == 1)
-  {
-    ulong const B = ps[0];
-    if (!ro || B >= 8) return bad;
-    return with_ro(k, v, [&](auto const &c) {
-      return std::to_string(alg::fold_break(c, 0UL, [B](auto const &e, ulong const st) {
-        return std::make_pair(bit(B, val(e)) ? fcppt::loop::break_ : fcppt::loop::continue_, st * 4 + static_cast<ulong>(val(e)) + 1);
-      }));
-    });
-  }
-  if (fn == "loopbrk" && np == 1)
-  {
-    ulong const B = ps[0];
-    if (!(ro || k == 'a' || k == 't' || k == 'p') || B >= 8) return bad;
-    seq log;
-    auto const body = [&log, B](auto const &e) {
-      log.push_back(val(e));
-      return bit(B, val(e)) ? fcppt::loop::break_ : fcppt::loop::continue_;
-    };
-    if (k == 'a')
-      return with_size<6>(v.size(), [&](auto n) { alg::loop_break(mk_array<SZ(n)>(v, 0), body); return ds(log); });
-    if (k == 't')
-      return with_size<3>(v.size(), [&](auto n) { alg::loop_break(mk_tuple<SZ(n)>(v, 0), body); return ds(log); });
-    if (k == 'p')
-      return with_mpl(v, [&](auto list) { alg::loop_break(list, body); return ds(log); });
-    return with_ro(k, v, [&](auto const &c) { alg::loop_break(c, body); return ds(log); });
-  }
-  if (fn == "loop" && np == 0)
-  {
-    if (!ro) return bad;
-    return with_ro(k, v, [&](auto const &c) {
-      seq log;
-      alg::loop(c, [&log](auto const &e) { log.push_back(val(e)); });
-      return ds(log);
-    });
-  }
-  if ((fn == "allof" || fn == "containsif") && np == 1)
-  {
-    ulong const P = ps[0];
-    if (!ro || P >= 8) return bad;
-    return with_ro(k, v, [&](auto const &c) {
-      seq log;
-      auto const pred = [&log, P](auto const &e) { log.push_back(val(e)); return bit(P, val(e)); };
-      bool const r = fn == "allof" ? alg::all_of(c, pred) : alg::contains_if(c, pred);
-      return std::string{b01(r)} + "|" + ds(log);
-    });
-  }
-  if ((fn == "contains" || fn == "findopt") && np == 1)
-  {
-    ulong const V = ps[0];
-    if (!ro || k == 'm' || V >= 3) return bad;
-    return with_ro(k, v, [&](auto const &c) -> std::string {
-      using elem = elem_t<decltype(c)>;
-      if constexpr (std::is_same_v<elem, int> || std::is_same_v<elem, en3>)
-      {
-        elem const value{static_cast<elem>(V)};
-        if (fn == "contains")
-          return b01(alg::contains(c, value));
-        return opt_idx(c, alg::find_opt(c, value));
-      }
-      else
-        return bad;
-    });
-  }
-  if (fn == "findifopt" && np == 1)
-  {
-    ulong const P = ps[0];
-    if (!ro || P >= 8) return bad;
-    return with_ro(k, v, [&](auto const &c) {
-      return opt_idx(c, alg::find_if_opt(c, [P](auto const &e) { return bit(P, val(e)); }));
-    });
-  }
-  if (fn == "findbyopt" && np == 1)
-  {
-    ulong const G = ps[0];
-    if (!ro || G >= 64) return bad;
-    return with_ro(k, v, [&](auto const &c) {
-      seq log;
-      fcppt::optional::object<int> const r{alg::find_by_opt(c, [&log, G](auto const &e) { log.push_back(val(e)); return tbl_g(G, val(e)); })};
-      return (r.has_value() ? std::to_string(r.get_unsafe()) : std::string{"none"}) + "|" + ds(log);
-    });
-  }
-  if (fn == "indexof" && np == 1)
-  {
-    ulong const V = ps[0];
-    if (!(k == 'v' || k == 'd' || k == 'a') || V >= 3) return bad;
-    auto const show = [](auto const &o) { return o.has_value() ? std::to_string(o.get_unsafe()) : std::string{"none"}; };
-    if (k == 'a')
-      return with_size<6>(v.size(), [&](auto n) { return show(alg::index_of(mk_array<SZ(n)>(v, 0), static_cast<int>(V))); });
-    return with_seq(k, v, [&](auto &c) -> std::string {
-      if constexpr (std::is_same_v<std::remove_cvref_t<decltype(c)>, std::list<int>>) return bad;
-      else return show(alg::index_of(c, static_cast<int>(V)));
-    });
-  }
-  if ((fn == "eqrange" || fn == "bsearch") && np == 1)
-  {
-    ulong const V = ps[0];
-    if (!(sq || k == 's') || V >= 3) return bad;
-    return with_seq_set(k, v, [&](auto &c) {
-      int const value{static_cast<int>(V)};
-      if (fn == "eqrange")
-      {
-        auto const r{alg::equal_range(c, value)};
-        return std::to_string(std::distance(c.begin(), r.begin())) + "," + std::to_string(std::distance(c.begin(), r.end()));
-      }
-      // both the const and the non-const overload
-      auto const &cc{c};
-      std::string const a{opt_idx(c, alg::binary_search(c, value))};
-      std::string const b{opt_idx(cc, alg::binary_search(cc, value))};
-      return a == b ? a : a + "!=" + b;
-    });
-  }
-  if ((fn == "removeif" || fn == "remove") && np == 1)
-  {
-    ulong const P = ps[0];
-    if (!sq || (fn == "remove" ? P >= 3 : P >= 8)) return bad;
-    return with_seq(k, v, [&](auto &c) {
-      bool const r = fn == "remove" ? alg::remove(c, static_cast<int>(P)) : alg::remove_if(c, [P](int const e) { return bit(P, e); });
-      return std::string{b01(r)} + "|" + ds(c);
-    });
-  }
-  if (fn == "unique" && np == 0)
-  {
-    if (!sq) return bad;
-    return with_seq(k, v, [&](auto &c) { alg::unique(c); return ds(c); });
-  }
-  if (fn == "uniqueif" && np == 1)
-  {
-    ulong const R = ps[0];
-    if (!sq || R >= 512) return bad;
-    return with_seq(k, v, [&](auto &c) { alg::unique_if(c, [R](int const a, int const b) { return rel(R, a, b); }); return ds(c); });
-  }
-  if (fn == "reverse" && np == 0)
-  {
-    if (!sq) return bad;
-    return with_seq(k, v, [&](auto &c) {
-      auto const &cc{c};
-      auto const before{c};
-      std::string const a{ds(alg::reverse(cc))};                // lvalue: copy
-      if (c != before) return std::string{"source-modified"};
-      std::string const b{ds(alg::reverse(std::move(c)))};      // rvalue: in place
-      return a == b ? a : a + "!=" + b;
-    });
-  }
-  if (fn == "seqiter" && np == 1)
-  {
-    ulong const R = ps[0];
-    if (!sq || R >= 8) return bad;
-    return with_seq(k, v, [&](auto &c) {
-      seq log;
-      alg::sequence_iteration(c, [&log, R](int const e) {
-        log.push_back(e);
-        return bit(R, e) ? alg::update_action::remove : alg::update_action::keep;
-      });
-      return ds(c) + "|" + ds(log);
-    });
-  }
-  if (fn == "atopt" && np == 1)
-  {
-    ulong const I = ps[0];
-    if (!(k == 'v' || k == 'd' || k == 'a')) return bad;
-    auto const show = [](auto const &o) { return o.has_value() ? std::to_string(o.get_unsafe().get()) : std::string{"none"}; };
-    if (k == 'a')
-      return with_size<6>(v.size(), [&](auto n) { auto a{mk_array<SZ(n)>(v, 0)}; return show(con::at_optional(a, I)); });
-    return with_seq(k, v, [&](auto &c) -> std::string {
-      if constexpr (std::is_same_v<std::remove_cvref_t<decltype(c)>, std::list<int>>) return bad;
-      else
-      {
-        auto const &cc{c};
-        std::string const a{show(con::at_optional(c, I))}, b{show(con::at_optional(cc, I))};
-        return a == b ? a : a + "!=" + b;
-      }
-    });
-  }
-  if (fn == "join" && np == 3)
-  {
-    ulong const K = ps[0], c1 = ps[1], c2 = ps[2];
-    if (!(sq || k == 's') || K < 1 || K > 3 || c1 > c2 || c2 > v.size()) return bad;
-    return with_seq_set(k, v, [&](auto &proto) {
-      using C = std::remove_cvref_t<decltype(proto)>;
-      auto const b0 = v.begin();
-      using diff = seq::difference_type;
-      C const whole(v.begin(), v.end());
-      C const a(b0, b0 + static_cast<diff>(c1)), b(b0 + static_cast<diff>(c1), b0 + static_cast<diff>(c2)), c(b0 + static_cast<diff>(c2), v.end());
-      C const bc(b0 + static_cast<diff>(c1), v.end());
-      std::string l, r;
-      if (K == 1) { l = ds(con::join(whole)); r = ds(con::join(C{whole})); }
-      else if (K == 2) { l = ds(con::join(a, bc)); r = ds(con::join(C{a}, C{bc})); }
-      else { l = ds(con::join(a, b, c)); r = ds(con::join(C{a}, b, C{c})); }
-      return l == r ? l : l + "!=" + r;
-    });
-  }
-  if (fn == "amap" && np == 1)
-  {
-    ulong const F = ps[0];
-    if (k != 'a' || F >= 27) return bad;
-    return with_size<6>(v.size(), [&](auto n) {
-      auto const src{mk_array<SZ(n)>(v, 0)};
-      std::string const a{ds(fcppt::array::map(src, [F](int const e) { return tbl_f(F, e); }))};
-      // the same through algorithm::map (map_array.hpp)
-      std::string const b{ds(alg::map<fcppt::array::object<int, SZ(n)>>(src, [F](int const e) { return tbl_f(F, e); }))};
-      return a == b ? a : a + "!=" + b;
-    });
-  }
-  if (fn == "aappend" && np == 1)
-  {
-    ulong const c1 = ps[0];
-    if (k != 'a' || c1 > v.size() || c1 > 3 || v.size() - c1 > 3) return bad;
-    return with_size<3>(c1, [&](auto n1) {
-      return with_size<3>(v.size() - c1, [&](auto n2) {
-        return ds(fcppt::array::append(mk_array<SZ(n1)>(v, 0), mk_array<SZ(n2)>(v, c1)));
-      });
-    });
-  }
-  if (fn == "ajoin" && np == 2)
-  {
-    ulong const c1 = ps[0], c2 = ps[1];
-    if (k != 'a' || c1 > c2 || c2 > v.size() || c1 > 2 || c2 - c1 > 2 || v.size() - c2 > 2) return bad;
-    return with_size<2>(c1, [&](auto n1) {
-      return with_size<2>(c2 - c1, [&](auto n2) {
-        return with_size<2>(v.size() - c2, [&](auto n3) {
-          return ds(fcppt::array::join(mk_array<SZ(n1)>(v, 0), mk_array<SZ(n2)>(v, c1), mk_array<SZ(n3)>(v, c2)));
-        });
-      });
-    });
-  }
-  if (fn == "apush" && np == 1)
-  {
-    ulong const V = ps[0];
-    if (k != 'a' || v.size() > 5 || V >= 3) return bad;
-    return with_size<5>(v.size(), [&](auto n) { return ds(fcppt::array::push_back(mk_array<SZ(n)>(v, 0), static_cast<int>(V))); });
-  }
-  if (fn == "afrom" && np == 1)
-  {
-    ulong const N = ps[0];
-    if (!(k == 'v' || k == 'd') || N > 4) return bad;
-    return with_size<4>(N, [&](auto n) {
-      auto const show = [](auto const &o) { return o.has_value() ? ds(o.get_unsafe()) : std::string{"none"}; };
-      if (k == 'v') { std::vector<int> const c(v.begin(), v.end()); return show(fcppt::array::from_range<SZ(n)>(c)); }
-      std::deque<int> const c(v.begin(), v.end());
-      return show(fcppt::array::from_range<SZ(n)>(c));
-    });
-  }
-  if (fn == "tmap" && np == 1)
-  {
-    ulong const F = ps[0];
-    if (k != 't' || F >= 27) return bad;
-    return with_size<3>(v.size(), [&](auto n) {
-      auto const src{mk_tuple<SZ(n)>(v, 0)};
-      return ds_tuple(fcppt::tuple::map(src, [F](auto const e) { return static_cast<long>(tbl_f(F, val(e))); }));
-    });
-  }
-  if (fn == "tpush" && np == 1)
-  {
-    ulong const V = ps[0];
-    if (k != 't' || v.size() > 2 || V >= 3) return bad;
-    return with_size<2>(v.size(), [&](auto n) { return ds_tuple(fcppt::tuple::push_back(mk_tuple<SZ(n)>(v, 0), static_cast<short>(V))); });
-  }
-  if (fn == "tconcat" && np == 2)
-  {
-    ulong const c1 = ps[0], c2 = ps[1];
-    if (k != 't' || c1 > c2 || c2 > v.size()) return bad;
-    return with_size<3>(c1, [&](auto n1) {
-      return with_size<3>(c2 - c1, [&](auto n2) {
-        return with_size<3>(v.size() - c2, [&](auto n3) -> std::string {
-          if constexpr (SZ(n1) + SZ(n2) + SZ(n3) > 3) return bad;
-          else
-            return ds_tuple(fcppt::tuple::concat(mk_tuple<SZ(n1)>(v, 0), mk_tuple<SZ(n2)>(v, c1), mk_tuple<SZ(n3)>(v, c2)));
-        });
-      });
-    });
-  }
+  for (auto const part : {&c16::eval_a, &c16::eval_b, &c16::eval_c, &c16::eval_d, &c16::eval_e, &c16::eval_f, &c16::eval_g})
+    if (auto r{part(fn, k, ps, v)}; r.has_value())
+      return *r;
   return bad;
 }
 
@@ -736,6 +65,34 @@ bool valid_str(std::string const &s)
 std::string un(std::string const &s) { return s == "-" ? std::string{} : s; }
 std::string show_str(std::string const &s) { return s.empty() ? "-" : s; }
 
+// split_string(s, s[I]) / join_strings(pieces, pieces[I]): the delimiter is taken from the argument itself
+std::string split_at_line(char const K, std::size_t const I, std::string const &s)
+{
+  if (I >= s.size()) return skip;
+  std::vector<std::string> pieces;
+  if (K == 's')
+    pieces = fcppt::algorithm::split_string(s, s[I]);
+  else
+  {
+    std::vector<char> const in(s.begin(), s.end());
+    for (auto const &p : fcppt::algorithm::split_string(in, in[I]))
+      pieces.emplace_back(p.begin(), p.end());
+  }
+  std::string r{std::to_string(pieces.size()) + ":"};
+  for (std::size_t i = 0; i < pieces.size(); ++i)
+    r += (i ? "/" : "") + pieces[i];
+  return r;
+}
+
+std::string join_at_line(std::size_t const I, std::vector<std::string> const &pieces)
+{
+  if (I >= pieces.size()) return skip;
+  std::string const a{fcppt::algorithm::join_strings(pieces, pieces[I])};
+  std::list<std::string> const l(pieces.begin(), pieces.end());
+  std::string const b{fcppt::algorithm::join_strings(l, *std::next(l.begin(), static_cast<std::ptrdiff_t>(I)))};
+  return a == b ? show_str(a) : show_str(a) + "!=" + show_str(b);
+}
+
 std::string split_line(char const K, std::string const &s)
 {
   std::vector<std::string> pieces;
@@ -759,7 +116,11 @@ std::string join_line(std::string const &d, std::vector<std::string> const &piec
   std::string const a{fcppt::algorithm::join_strings(pieces, d)};
   std::list<std::string> const l(pieces.begin(), pieces.end());
   std::string const b{fcppt::algorithm::join_strings(l, d)};
-  return a == b ? show_str(a) : show_str(a) + "!=" + show_str(b);
+  std::string r{a == b ? show_str(a) : show_str(a) + "!=" + show_str(b)};
+  // converse round trip for a one-character delimiter: split(join(pieces)) == pieces ?
+  if (d.size() == 1)
+    r += std::string{" rt="} + b01(fcppt::algorithm::split_string(a, d[0]) == pieces);
+  return r;
 }
 
 std::vector<std::string> all_strings(std::string const &alpha, ulong const len)
@@ -774,6 +135,28 @@ std::vector<std::string> all_strings(std::string const &alpha, ulong const len)
     r.push_back(s);
   }
   return r;
+}
+
+std::vector<std::vector<std::string>> piece_tuples(ulong const n)
+{
+  std::vector<std::string> choices;
+  for (ulong l = 0; l < 3; ++l)
+    for (auto const &s : all_strings("ab", l))
+      choices.push_back(s);
+  std::vector<std::vector<std::string>> tuples{{}};
+  for (ulong i = 0; i < n; ++i)
+  {
+    std::vector<std::vector<std::string>> next;
+    for (auto const &tu : tuples)
+      for (auto const &p : choices)
+      {
+        auto x{tu};
+        x.push_back(p);
+        next.push_back(std::move(x));
+      }
+    tuples = std::move(next);
+  }
+  return tuples;
 }
 
 // ---------------------------------------------------------------- maps, sets
@@ -823,6 +206,80 @@ std::string eval_m(std::string const &fn, std::vector<ulong> const &ps, ulong co
     if (e2 != r.element() || m2 != m || calls2 != calls) out += "!get_or_insert";
     return out + "|" + encode_map(m) + "|" + ds(calls);
   }
+  if (fn == "contains" && ps.size() == 1)
+  {
+    if (ps[0] >= 4) return bad;
+    return b01(con::contains(m, static_cast<int>(ps[0])));
+  }
+  if ((fn == "findopt" || fn == "findit") && ps.size() == 1)
+  {
+    if (ps[0] >= 4) return bad;
+    int const K{static_cast<int>(ps[0])};
+    auto const &cm{m};
+    if (fn == "findit")
+    {
+      auto const a{con::find_opt_iterator(m, K)};
+      auto const b{con::find_opt_iterator(cm, K)};
+      auto const show = [&](auto const &o, auto const &c) {
+        return o.has_value() ? std::to_string(std::distance(c.begin(), std::map<int, int>::const_iterator{o.get_unsafe()})) : std::string{"none"};
+      };
+      std::string const sa{show(a, m)}, sb{show(b, cm)};
+      return sa == sb ? sa : sa + "!=" + sb;
+    }
+    auto const a{con::find_opt(m, K)};
+    auto const b{con::find_opt(cm, K)};
+    auto const show = [&](auto const &o) {
+      if (!o.has_value()) return std::string{"none"};
+      auto const &e{o.get_unsafe().get()};
+      return std::to_string(e.first) + ">" + std::to_string(e.second) + (&e == &*cm.find(K) ? "" : "!ref");
+    };
+    std::string const sa{show(a)}, sb{show(b)};
+    return sa == sb ? sa : sa + "!=" + sb;
+  }
+  if (fn == "insert" && ps.size() == 1)
+  {
+    if (ps[0] >= 12) return bad;
+    bool const r{con::insert(m, std::make_pair(static_cast<int>(ps[0] / 3), static_cast<int>(ps[0] % 3)))};
+    return std::string{b01(r)} + "|" + encode_map(m);
+  }
+  if (fn == "valsref" && ps.size() == 1)
+  {
+    // references stay references: change every mapped value after taking them
+    if (ps[0] >= 3) return bad;
+    auto const refs{con::map_values_ref<std::vector<fcppt::reference<int>>>(m)};
+    for (auto &e : m) e.second = (e.second + static_cast<int>(ps[0])) % 3;
+    std::string b;
+    auto it{m.begin()};
+    for (auto const &r : refs)
+    {
+      b += std::to_string(r.get()) + (&r.get() == &it->second ? "" : "!ref");
+      ++it;
+    }
+    return b.empty() ? "-" : b;
+  }
+  if ((fn == "getorinsat" || fn == "getorinsatv" || fn == "findmappedat" || fn == "containsat" || fn == "insertat") && ps.size() == 1)
+  {
+    // the key / value argument is a reference to (part of) the J-th entry of the map itself
+    ulong const J = ps[0];
+    if (J > 2) return bad;
+    if (J >= m.size()) return skip;
+    auto const it{std::next(m.begin(), static_cast<std::ptrdiff_t>(J))};
+    if (fn == "findmappedat")
+    {
+      auto const a{con::find_opt_mapped(m, it->first)};
+      return a.has_value() ? std::to_string(a.get_unsafe().get()) : "none";
+    }
+    if (fn == "containsat") return b01(con::contains(m, it->first));
+    if (fn == "insertat")
+    {
+      bool const r{con::insert(m, *it)};
+      return std::string{b01(r)} + "|" + encode_map(m);
+    }
+    int const &key{fn == "getorinsat" ? it->first : it->second};
+    seq calls;
+    auto const r{con::get_or_insert_with_result(m, key, [&calls](int const k) { calls.push_back(k); return (k + 1) % 3; })};
+    return std::to_string(r.element()) + "," + b01(r.inserted()) + "|" + encode_map(m) + "|" + ds(calls);
+  }
   if (fn == "keyset" && ps.empty())
     return ds(con::key_set<std::set<int>>(m));
   if (fn == "mapvals" && ps.empty())
@@ -865,6 +322,29 @@ std::string setop_line(std::string const &op, std::vector<long long> const &a, s
   if (op == "U") return nl(fcppt::container::set_union(sa, sb));
   if (op == "I") return nl(fcppt::container::set_intersection(sa, sb));
   if (op == "D") return nl(fcppt::container::set_difference(sa, sb));
+  // the same object as both operands
+  if (op == "u") return nl(fcppt::container::set_union(sa, sa));
+  if (op == "i") return nl(fcppt::container::set_intersection(sa, sa));
+  if (op == "d") return nl(fcppt::container::set_difference(sa, sa));
+  if ((op == "n" || op == "c") && b.size() == 1)
+  {
+    // the value is a reference to the j-th element of the set itself
+    std::set<int> s2{sa};
+    if (b[0] < 0 || static_cast<std::size_t>(b[0]) >= s2.size()) return skip;
+    int const &x{*std::next(s2.begin(), static_cast<std::ptrdiff_t>(b[0]))};
+    if (op == "c") return b01(fcppt::container::contains(s2, x));
+    bool const r{fcppt::container::insert(s2, x)};
+    return std::string{b01(r)} + "|" + nl(s2);
+  }
+  // container::insert / container::contains: the second list must be a single element
+  if ((op == "N" || op == "C") && b.size() == 1)
+  {
+    int const x{static_cast<int>(b[0])};
+    if (op == "C") return b01(fcppt::container::contains(sa, x));
+    std::set<int> s2{sa};
+    bool const r{fcppt::container::insert(s2, x)};
+    return std::string{b01(r)} + "|" + nl(s2);
+  }
   return bad;
 }
 
@@ -893,6 +373,8 @@ struct state
 {
   fcppt::container::index_map<int> im{};
   int g{0};
+  std::map<int, int> m{};
+  int calls{0};
 };
 state *st = nullptr;
 
@@ -903,9 +385,10 @@ int gen_next(int &g)
   return r;
 }
 
-std::string im_show(int const v)
+std::string im_show(int const &v, std::size_t const i)
 {
-  return std::to_string(v) + " " + std::to_string(st->im.impl().size()) + "|" + nl(st->im.impl());
+  // the returned reference must be the element inside the container
+  return std::to_string(v) + (&v == &st->im.impl()[i] ? "" : "!ref") + " " + std::to_string(st->im.impl().size()) + "|" + nl(st->im.impl());
 }
 
 // ---------------------------------------------------------------- dispatch
@@ -945,6 +428,44 @@ std::string handle(std::vector<std::string> const &t)
       h = vh::fnv(h, split_line(t[1][0], s));
     return "D " + vh::hex64(h);
   }
+  if (op == "splitat" && t.size() == 4)
+  {
+    auto const I{to_nat(t[2])};
+    if (!valid_str(t[3]) || !I || t[1].size() != 1 || (t[1][0] != 's' && t[1][0] != 'v')) return bad;
+    return split_at_line(t[1][0], *I, un(t[3]));
+  }
+  if (op == "dsplitat" && t.size() == 4)
+  {
+    auto const I{to_nat(t[2])};
+    auto const len{to_nat(t[3])};
+    if (!len || !I || *len > 9 || t[1].size() != 1 || (t[1][0] != 's' && t[1][0] != 'v')) return bad;
+    std::uint64_t h = vh::fnv_init;
+    for (auto const &s : all_strings("abc", *len))
+      h = vh::fnv(h, split_at_line(t[1][0], *I, s));
+    return "D " + vh::hex64(h);
+  }
+  if ((op == "joinstrat" || op == "djoinat") && t.size() >= 3)
+  {
+    auto const I{to_nat(t[1])};
+    auto const n{to_nat(t[2])};
+    if (!I || !n || *n > 6) return bad;
+    if (op == "joinstrat")
+    {
+      if (t.size() != 3 + *n) return bad;
+      std::vector<std::string> pieces;
+      for (std::size_t i = 3; i < t.size(); ++i)
+      {
+        if (!valid_str(t[i])) return bad;
+        pieces.push_back(un(t[i]));
+      }
+      return join_at_line(*I, pieces);
+    }
+    if (t.size() != 3 || *n > 4) return bad;
+    std::uint64_t h = vh::fnv_init;
+    for (auto const &tu : piece_tuples(*n))
+      h = vh::fnv(h, join_at_line(*I, tu));
+    return "D " + vh::hex64(h);
+  }
   if (op == "joinstr" && t.size() >= 3)
   {
     auto const n{to_nat(t[2])};
@@ -961,23 +482,7 @@ std::string handle(std::vector<std::string> const &t)
   {
     auto const n{to_nat(t[2])};
     if (!valid_str(t[1]) || !n || *n > 4) return bad;
-    std::vector<std::string> choices;
-    for (ulong l = 0; l < 3; ++l)
-      for (auto const &s : all_strings("ab", l))
-        choices.push_back(s);
-    std::vector<std::vector<std::string>> tuples{{}};
-    for (ulong i = 0; i < *n; ++i)
-    {
-      std::vector<std::vector<std::string>> next;
-      for (auto const &tu : tuples)
-        for (auto const &p : choices)
-        {
-          auto x{tu};
-          x.push_back(p);
-          next.push_back(std::move(x));
-        }
-      tuples = std::move(next);
-    }
+    auto const tuples{piece_tuples(*n)};
     std::uint64_t h = vh::fnv_init;
     for (auto const &tu : tuples)
       h = vh::fnv(h, join_line(un(t[1]), tu));
@@ -1015,10 +520,11 @@ std::string handle(std::vector<std::string> const &t)
   }
   if (op == "dset" && t.size() == 2)
   {
-    if (t[1] != "U" && t[1] != "I" && t[1] != "D") return bad;
+    if (t[1].size() != 1 || std::string{"UIDuidNCnc"}.find(t[1][0]) == std::string::npos) return bad;
+    bool const single = t[1] == "N" || t[1] == "C" || t[1] == "n" || t[1] == "c";
     std::uint64_t h = vh::fnv_init;
     for (ulong n = 0; n < 64; ++n)
-      h = vh::fnv(h, setop_line(t[1], mask_list(n / 8), mask_list(n % 8)));
+      h = vh::fnv(h, setop_line(t[1], mask_list(n / 8), single ? std::vector<long long>{static_cast<long long>(n % 4)} : mask_list(n % 8)));
     return "D " + vh::hex64(h);
   }
   if (op == "repeat" && t.size() == 2)
@@ -1050,6 +556,7 @@ std::string handle(std::vector<std::string> const &t)
     case 'v': return nl(fcppt::algorithm::generate_n<std::vector<int>>(*n, f));
     case 'l': return nl(fcppt::algorithm::generate_n<std::list<int>>(*n, f));
     case 'd': return nl(fcppt::algorithm::generate_n<std::deque<int>>(*n, f));
+    case 'r': { auto const r{fcppt::algorithm::generate_n<rc>(*n, f)}; return nl(r) + "|" + r.cap(); }
     default: return bad;
     }
   }
@@ -1067,6 +574,59 @@ std::string handle(std::vector<std::string> const &t)
       return nl(a) + "|" + nl(log);
     });
   }
+  if (op == "dyn" && t.size() == 2)
+  {
+    auto const n{to_nat(t[1])};
+    if (!n || *n > 64) return bad;
+    fcppt::container::dynamic_array<int> a{*n};
+    auto const &ca{a};
+    for (std::size_t i = 0; i < *n; ++i) a.data()[i] = static_cast<int>((i * i + 1) % 7);
+    std::vector<int> back;
+    for (int const *p{ca.data()}; p != ca.data_end(); ++p) back.push_back(*p);
+    return std::to_string(a.size()) + "|" + std::to_string(a.data_end() - a.data()) + "|" + nl(back);
+  }
+  if (op == "hgoi" && t.size() == 2)
+  {
+    auto const K{to_nat(t[1])};
+    if (!K || *K > 3) return bad;
+    int const before{st->calls};
+    auto const r{fcppt::container::get_or_insert_with_result(st->m, static_cast<int>(*K), [](int const k) { return (k + st->calls++) % 3; })};
+    return std::to_string(r.element()) + "," + b01(r.inserted()) + "|" + encode_map(st->m) + "|" + std::to_string(st->calls - before);
+  }
+  if (op == "hins" && t.size() == 3)
+  {
+    auto const K{to_nat(t[1])}, V{to_nat(t[2])};
+    if (!K || !V || *K > 3 || *V > 2) return bad;
+    bool const r{fcppt::container::insert(st->m, std::make_pair(static_cast<int>(*K), static_cast<int>(*V)))};
+    return std::string{b01(r)} + "|" + encode_map(st->m);
+  }
+  if ((op == "hfind" || op == "hcont") && t.size() == 2)
+  {
+    auto const K{to_nat(t[1])};
+    if (!K || *K > 3) return bad;
+    if (op == "hcont") return b01(fcppt::container::contains(st->m, static_cast<int>(*K)));
+    auto const o{fcppt::container::find_opt_mapped(st->m, static_cast<int>(*K))};
+    return o.has_value() ? std::to_string(o.get_unsafe().get()) : "none";
+  }
+  if (op == "hiter" && t.size() == 2)
+  {
+    auto const R{to_nat(t[1])};
+    if (!R || *R > 7) return bad;
+    seq log;
+    fcppt::algorithm::map_iteration_second(st->m, [&log, &R](int const &e) {
+      log.push_back(e);
+      return bit(*R, e) ? fcppt::algorithm::update_action::remove : fcppt::algorithm::update_action::keep;
+    });
+    return encode_map(st->m) + "|" + ds(log);
+  }
+  if (op == "hset" && t.size() == 3)
+  {
+    // assign through the reference returned by get_or_insert
+    auto const K{to_nat(t[1])}, V{to_nat(t[2])};
+    if (!K || !V || *K > 3 || *V > 2) return bad;
+    fcppt::container::get_or_insert(st->m, static_cast<int>(*K), [](int) { ++st->calls; return 0; }) = static_cast<int>(*V);
+    return encode_map(st->m);
+  }
   if (op == "reset" && t.size() == 1)
   {
     delete st;
@@ -1081,10 +641,10 @@ std::string handle(std::vector<std::string> const &t)
     if (op == "imget")
     {
       int &r{st->im.get(*i, im_type::insert_function{[] { return gen_next(st->g); }})};
-      return im_show(r);
+      return im_show(r, *i);
     }
     int &r{st->im[*i]};
-    return im_show(r);
+    return im_show(r, *i);
   }
   return bad;
 }
